@@ -140,6 +140,14 @@ def gen_query(rng, join_id):
 
 
 def gen_sink(rng, enc):
+    sink = _gen_sink(rng, enc)
+    if rng.random() < 0.2:
+        # how the stream says that its reader has gone: BrokenPipeError without an errno (a wrapper object), or with ESHUTDOWN
+        sink['flavor'] = rng.choice(['noerrno', 'eshutdown'])
+    return sink
+
+
+def _gen_sink(rng, enc):
     if enc is None:
         return {'type': 'text', 'close_on_finish': rng.random() < 0.3}
     return {'type': 'bytes', 'shape': rng.choice(['plain', 'std']), 'bufsize': rng.choice([1, 4, 16, 64, 8192]),
@@ -562,10 +570,10 @@ def _make_sink(sink_cfg, fault):
     """Returns (stream given to the code under test, accessor for accepted output, raw or sink object)."""
     if sink_cfg['type'] == 'text':
         at = fault['at'] if fault and fault['kind'] == 'sink_break_call' else None
-        s = SimTextSink(break_at_call=at, log=Sim.log)
+        s = SimTextSink(break_at_call=at, log=Sim.log, flavor=sink_cfg.get('flavor'))
         return s, (lambda: s.getvalue()), s
     budget = fault['budget'] if fault and fault['kind'] == 'sink_break_bytes' else None
-    raw = SimRawSink(budget, log=Sim.log)
+    raw = SimRawSink(budget, log=Sim.log, flavor=sink_cfg.get('flavor'))
     buffered = io.BufferedWriter(raw, buffer_size=max(1, sink_cfg.get('bufsize', 8192)))
     stream = StdShape(buffered) if sink_cfg.get('shape') == 'std' else buffered
     return stream, (lambda: bytes(raw.accepted).hex()), raw
@@ -718,7 +726,7 @@ def _run_process(t, sc, fault, obs):
     budget = fault['budget'] if fault and fault['kind'] == 'sink_break_bytes' else None
     if sc.get('file_budget') is not None:
         budget = sc['file_budget']
-    out_raw = SimRawSink(budget, log=Sim.log, atomic=bool(sc.get('sink', {}).get('atomic')), errno_code=sc.get('device_errno'))
+    out_raw = SimRawSink(budget, log=Sim.log, atomic=bool(sc.get('sink', {}).get('atomic')), errno_code=sc.get('device_errno'), flavor=sc.get('sink', {}).get('flavor'))
     stdout = None
     to_file = sc.get('out_to') == 'file'
     if to_file:
@@ -1125,7 +1133,7 @@ def shrinks(sc):
                         yield c
     sink = sc.get('sink')
     if sink:
-        for k, v in (('tw_chunk', None), ('bufsize', 8192), ('shape', 'plain'), ('close_on_finish', False)):
+        for k, v in (('tw_chunk', None), ('bufsize', 8192), ('shape', 'plain'), ('close_on_finish', False), ('flavor', None)):
             if k in sink and sink[k] != v:
                 c = dict(sc)
                 c['sink'] = dict(sink)
